@@ -237,6 +237,11 @@ def run_check(ctx):
     tlc.must_ok(res, "Idb_c11")
     ctx.cov["exhaustive"] = True
 
+    # ---- 1b. the BUILDER side (spec IdbBuild): every mutation of the database under construction is an action;
+    #          H-idbbuild traces of real interrogate runs are validated and cross-checked against the file written
+    from . import _idbbuild
+    _idbbuild.run_part(ctx, work)
+
     # ---- 2. generated headers through interrogate ------------------------------------------------------
     H = _idbm.single_headers()
     if "C11-wstring-atomic-string" in ctx.known:
